@@ -306,3 +306,10 @@ pub fn fft_stream(size: usize, l: usize, cap: usize, sched: &[(usize, usize)], g
     };
     verdicts_11(&mk, l, cap, sched, gone, 4);
 }
+
+/// AuDecode in its data state, enumerated situations (odd byte left over etc.).
+pub fn au_decode_data(l: usize, cap_in: usize, cap_out: usize, sched: &[(usize, usize)], gone: bool) {
+    let input = sym_vec::<u8>(l + cap_in + 1);
+    let mk = |src: ReadStream<u8>| rustradio::au::verif_access::decoder_in_data_state(src, 8000);
+    verdicts_11_in(&mk, input, l, cap_in, cap_out, sched, gone, 4);
+}
